@@ -47,6 +47,18 @@ def scenarios(draw):
                          noise_p=src.choice([0.0, 0.1, 0.3]), drop_iso_p=src.choice([0.0, 0.3]), intergenic_p=0.4,
                          exact=exact, delta=src.choice([0, 4, 6]),
                          canon_classes=("canon", "canon", "canon", "anti", "non"))
+    if annotated and src.bool(0.3):
+        # reference previously produced by IsoQuant: consecutive transcript<N>.<chr>.* / novel_gene_<chr>_<N> ids
+        per_chr = {}
+        for g in sc["genes"]:
+            n = per_chr.get(g["chr"], src.int(0, 2))
+            if src.bool(0.5):
+                n += 1
+                g["id"] = "novel_gene_%s_%d" % (g["chr"], n)
+            for t in g["transcripts"]:
+                n += 1
+                t["id"] = "transcript%d.%s.%s" % (n, g["chr"], src.choice(["nic", "nnic"]))
+            per_chr[g["chr"]] = n
     sc["opts"] = common_opts(src, annotated)
     sc.pop("truth", None)
     return sc
